@@ -61,7 +61,7 @@ ASSUMPTIONS = ['scipy.signal.convolve2d (direct sums) is the reference convoluti
 
 def plan(tier):
     if tier == 'thorough':
-        return dict(shards=16, cases=7000, timeout=2400, budget_s=620)
+        return dict(shards=16, cases=12000, timeout=2400, budget_s=600)
     return dict(shards=8, cases=750, timeout=600, budget_s=70)
 
 
@@ -509,7 +509,11 @@ def _run_find_peaks(case):
                     oks, cmin = [], np.inf
                     for arr in ((data, filled) if nanm[slc].any() else (data,)):
                         r_, cond_ = cref.com_reference(arr[slc], mcut)
-                        if np.isfinite(cond_) and cond_ < 1e6:
+                        if not np.isfinite(cond_):
+                            oks.append(True)      # exactly zero total: undefined (a rounded sum need not be 0)
+                        elif cond_ >= 1e6:
+                            oks.append(True)                                   # ill-conditioned total: not judged
+                        else:
                             cmin = min(cmin, cond_)
                             tol_ = 1e-12 * cond_ * max(fp.shape)
                             oks.append(bool(np.all(np.abs(obs - (r_ + [slc[1].start, slc[0].start])) <= tol_)))
